@@ -40,7 +40,7 @@ def session(rng):
     s.key("KE", R | W, expires=s.now - 100000)           # expired
     n = rng.choice([1, 2, 3, 4])
     for i in range(n):
-        s.conn("c%d" % (i + 1), user=rng.choice([b"", b"u%d" % i]))
+        s.conn("c%d" % (i + 1), user=rng.choice([b"", b"u%d" % i]), connect=rng.randrange(6) != 0)
     subs = []
     steps = rng.choice([8, 20, 40])
     deafen_at = rng.randrange(steps) if n >= 2 and rng.randrange(3) == 0 else -1
